@@ -3,6 +3,7 @@ package util
 import (
 	"encoding/json"
 	"errors"
+	"fmt"
 	"net"
 
 	"github.com/pion/ice/v2"
@@ -58,6 +59,20 @@ func DeserializeSessionDescription(msg string) (*webrtc.SessionDescription, erro
 		Type: stype,
 		SDP:  sdpStr,
 	}, nil
+}
+
+// SetRemoteDescription applies a session description received from the other
+// side to pc. The SDP parser (pion/sdp v3.0.5) panics on some malformed input,
+// e.g. an "r=" line with fewer than two fields; a description from an untrusted
+// peer must be refused like any other invalid one, not take the process down.
+// The parse happens before pc takes any lock or changes state.
+func SetRemoteDescription(pc *webrtc.PeerConnection, desc webrtc.SessionDescription) (err error) {
+	defer func() {
+		if r := recover(); r != nil {
+			err = fmt.Errorf("invalid session description: %v", r)
+		}
+	}()
+	return pc.SetRemoteDescription(desc)
 }
 
 // Stolen from https://github.com/golang/go/pull/30278
